@@ -1,2 +1,2 @@
-import TarsModel.Model.Bytes
-import TarsModel.Model.Wire
+-- root of the library: every Props module (and through them models and proofs)
+import TarsModel.Props.C02
